@@ -196,7 +196,14 @@ def oracle(sc, impl, aligned):
                         n, puts[0][2])))
             if s in ('failed', 'missing') and matching(n) and n in by_name and (f['err'].get(n) or [None])[0] != 'put':
                 out['C19'].append(('delivered-but-failed', 'module %d was delivered by a borrower but still counts as %s' % (n, s)))
-    # ---- C07 (any scenario): a module that was handed to the writer successfully is not reported as never found
+    # ---- C19 / C07 (any scenario): a run is only given up (modules left unprocessed) when some module is failed or missing at the end;
+    # a module a borrower made good - written or found fresh at the destination - is no failure any more
+    # (aligned scenarios: when a file holds a module of another name the status of the requested name is the multi-module family)
+    if aligned and any(s == 'unprocessed' for s in st.values()) and not any(s in ('failed', 'missing') for s in st.values()):
+        pid_ = 'C19' if f['borrows'] else 'C07'
+        out[pid_].append(('delivered-but-failed' if f['borrows'] else 'unprocessed-without-failure',
+                          'modules %s are left unprocessed although no module is failed or missing (statuses %s)' % (
+                              sorted(n for n, s in st.items() if s == 'unprocessed'), sorted(st.items()))))
     if write:
         for c in f['puts']:
             if sc['put'].get(str(c[1]), True) and st.get(c[1]) == 'missing':
